@@ -245,6 +245,8 @@ def run(ctx):
     ctx.run_rule('C15.4c', 'T2', 'what a cycle search remembers does not depend on which type was searched first: dead ends only after a complete search, counted skips, per root', c05.r_dead_ends, prog)
     ctx.run_rule('C15.4b', 'T2', 'no report is gated by first-seen state that outlives the element', r_no_first_seen_gating, prog)
     from props import c03 as _c03
+    from props import c07 as _c07
+    ctx.run_rule('C15.6', 'T2', 'whether the inputs are compiled does not depend on how they are split between sources and references', _c07.r_every_input_compiled, prog)
     ctx.run_rule('C15.2c', 'T1', 'which element a name denotes does not depend on the order of the files: definitions are last-writer-wins, a module never takes a name', _c03.r_name_table_single_writer, prog)
     ctx.run_rule('C15.2b', 'T1', 'the table of seen definitions is written only by the step that also checks and reports', r_symmetric_redefinition_table, prog)
     ctx.run_rule('C15.5', 'T10', 'the diagnostics emitted and counted are exactly what into_updated returned', r_emitted_is_updated, prog)
